@@ -41,7 +41,7 @@ def state_fn(conf, hist, G, M):
 def run(tier, seed):
     params = {'u1_depth': 3, 'two_depth': 2} if tier == 'quick' else {'u1_depth': 4, 'two_depth': 3}
     return base.run_state_property(
-        PROP, LEVEL, state_fn, tier, seed, which=base.NO_LONG, reduced=base.REDUCED_LIGHT, acc_reduced=(tier == 'quick'), modes=(True, False), params=params,
+        PROP, LEVEL, state_fn, tier, seed, pure=True, which=base.NO_LONG, reduced=base.REDUCED_LIGHT, acc_reduced=(tier == 'quick'), modes=(True, False), params=params,
         vacuity={'states_reciprocal': 10, 'states_selfloop': 10, 'states_isolated_node': 10},
         sample_fn=base.default_samples,
         rule='BFS over add_*/add_node histories (U1,U2,TWO,U3), both classes, both removal modes; every distinct state x every '
